@@ -159,6 +159,9 @@ class SymbolCodePrinter(StrPrinter):  # type: ignore[misc]
         if expr.could_extract_minus_sign():
             expr = -expr
             tex = "-"
+            if expr.is_Add:
+                # the negated expression is a sum, e.g. `-(a + b)` kept by SymPy as `Mul(-1, a + b)`
+                return f"{tex}({self._print(expr)})"
 
         n, d = fraction(expr, exact=True)
 
